@@ -94,7 +94,7 @@ Definition bcol (a : array int) : list bool := map (fun i => negb (Uint63.eqb i 
 Definition zcol (a : array int) : list Z := map Uint63.to_Z (alist a).
 
 Record acase := mkacase {
-  a_elec : bool; a_lo_skip : bool; a_hi_skip : bool;
+  a_elec : bool; a_lo_fwd : int; a_hi_back : int;
   a_bnds : array int;
   a_ts : array int; a_temp : array float; a_obs : array float; a_ghi : array float;
   a_est_t : array float; a_est_o : array float; a_est_g : array float;
@@ -110,7 +110,7 @@ Fixpoint rows_of (t : list Z) (a b c : list (option Q)) : list qrow :=
   end.
 
 Definition to_case (a : acase) : case :=
-  mkcase (a_elec a) (zcol (a_bnds a)) (mkedges (a_lo_skip a) (a_hi_skip a))
+  mkcase (a_elec a) (zcol (a_bnds a)) (mkedges (Uint63.to_Z (a_lo_fwd a)) (Uint63.to_Z (a_hi_back a)))
          (rows_of (zcol (a_ts a)) (qcol (a_temp a)) (qcol (a_obs a)) (qcol (a_ghi a)))
          (qcol (a_est_t a), qcol (a_est_o a), qcol (a_est_g a))
          (Uint63.to_Z (a_lo a)) (Z.to_nat (Uint63.to_Z (a_n a)))
